@@ -394,14 +394,13 @@ class Engine:
     def save_state(self):
         """the rows of every table (for load_state: rewinding the database in place)"""
         return {"rows": {n: [dict(r) for r in t.rows] for n, t in self.tables.items()},
-                "autoinc": {n: t.autoinc_next for n, t in self.tables.items()}, "utc_date": self.utc_date, "rng": self.rng.getstate()}
+                "autoinc": {n: t.autoinc_next for n, t in self.tables.items()}, "utc_date": self.utc_date}
 
     def load_state(self, st):
         for n, t in self.tables.items():
             t.rows = [dict(r) for r in st["rows"][n]]
             t.autoinc_next = st["autoinc"][n]
-        self.utc_date = st["utc_date"]
-        self.rng.setstate(st["rng"])
+        self.utc_date = st["utc_date"]      # (the random generator - RAND() picks the shard tokens - is not rewound: variety is wanted)
 
     # ---- sessions -------------------------------------------------------------------------------------
     def connect(self):
